@@ -259,6 +259,8 @@ type c18Workload struct {
 	Ops     []c18Op  `json:"ops"`
 	FwdMax  int      `json:"forward_delay_max_us"`
 	RPCMax  int      `json:"rpc_delay_max_us,omitempty"`
+	// LoseAnswers: the answers to the first n push-pull requests (the creator's entry) are lost on their way back
+	LoseAnswers int `json:"lose_first_answers,omitempty"`
 	// SubDelay: the broker takes this long before a SUBSCRIBE is in force and acknowledged; the harness then
 	// does not wait for the broker either: the operations start as soon as the last client reports SUBSCRIBED
 	SubDelay int    `json:"subscribe_delay_us,omitempty"`
@@ -355,6 +357,9 @@ func c18Run(wl c18Workload) (quiescent bool, calls map[string]int, err error) {
 			if wl.RPCMax > 0 {
 				// a slow network: requests stay in flight while further operations and notifications arrive
 				time.Sleep(time.Duration((n*104729)%(wl.RPCMax+1)) * time.Microsecond)
+			}
+			if n <= wl.LoseAnswers {
+				return true // handled by the server, the answer never arrives
 			}
 		}
 		return false
@@ -710,5 +715,42 @@ func TestC18OpenTransaction(t *testing.T) {
 		}
 		b, _ := json.Marshal(wl)
 		col.Case(fail, string(b), []string{"kind=" + string(kind), fmt.Sprintf("tx-fails=%v", fail)}, func() interface{} { return wl })
+	})
+}
+
+// TestC18LostEntryAnswer: the answer to a realtime client's entry request (create / subscribe-or-create) is lost;
+// the client enters with its next request. From then on it is a realtime client like any other: it has to hear
+// of the other clients' pushes by itself.
+func TestC18LostEntryAnswer(t *testing.T) {
+	col := stats.New("C18", t.Name(),
+		"2-3 REAL realtime clients on a Counter / List; the answers to the first 1-2 push-pull requests (the entry of client 0, which creates the key) are lost after the server has handled them; once every client reports SUBSCRIBED, the OTHER clients issue 1-4 operations and client 0 none; "+
+			"oracle: every client becomes subscribed by itself; at quiescence every client = refmodel(stored log) - client 0 included, which only gets there if it is notified; non-trivial = every case; distinct = the drawn parameters")
+	col.Assume("schedule coverage is sampled; convergence is checked in its safety form quiescent => converged")
+	checkProp(t, "C18", col, func(c *caseCtx) {
+		rt := c.rt
+		kind := []sim.Kind{sim.Counter, sim.List}[rapid.IntRange(0, 1).Draw(rt, "kind")]
+		wl := c18Workload{Kind: kind, Clients: rapid.IntRange(2, 3).Draw(rt, "clients"), IDSeed: rapid.Uint64Range(1, 1<<40).Draw(rt, "idseed"),
+			LoseAnswers: rapid.IntRange(1, 2).Draw(rt, "lost_answers")}
+		for i, n := 0, rapid.IntRange(1, 4).Draw(rt, "ops"); i < n; i++ {
+			call := c06CheapCall(kind, i)
+			if kind == sim.Counter {
+				call = c07Op(kind, i)
+			}
+			wl.Ops = append(wl.Ops, c18Op{C: 1 + rapid.IntRange(0, wl.Clients-2).Draw(rt, "c"), Call: call, Sleep: rapid.SampledFrom([]int{0, 500, 3000}).Draw(rt, "sleep")})
+		}
+		c.j.Header = wl
+		q, _, err := c18Run(wl)
+		if err != nil {
+			if strings.Contains(err.Error(), "HARNESS-ERROR") {
+				rt.Skip(err.Error())
+			}
+			c.failf("%v", err)
+		}
+		if !q {
+			col.Label("no-quiescence-within-budget")
+			rt.Skip("no quiescence")
+		}
+		b, _ := json.Marshal(wl)
+		col.Case(true, string(b), []string{"kind=" + string(kind), fmt.Sprintf("lost-answers=%d", wl.LoseAnswers)}, func() interface{} { return wl })
 	})
 }
